@@ -22,9 +22,9 @@ def tree_hash(profile):
     h.update(profile.encode())
     return h.hexdigest()[:20]
 
-def get_summary(profile='dev', use_cache=True, verbose=False):
+def get_summary(profile='dev', use_cache=True, verbose=False, merge_bool=True):
     os.makedirs(CACHE, exist_ok=True)
-    hh = tree_hash(profile)
+    hh = tree_hash(profile + ('' if merge_bool else '-nomerge'))
     spath = os.path.join(CACHE, 'summ-%s.pkl' % hh)
     lock = open(os.path.join(CACHE, 'lock-%s' % profile), 'w')
     fcntl.flock(lock, fcntl.LOCK_EX)
@@ -36,13 +36,13 @@ def get_summary(profile='dev', use_cache=True, verbose=False):
                 pass
         fpath = os.path.join(CACHE, 'facts-%s.json' % hh)
         t0 = time.time()
-        r = subprocess.run([os.path.join(VERIF, 'extract.sh'), fpath, profile], capture_output=True, text=True)
+        r = subprocess.run([os.path.join(VERIF, 'extract.sh'), fpath, profile.split('-')[0]], capture_output=True, text=True)
         if r.returncode != 0 or not os.path.exists(fpath):
             sys.stdout.write(r.stdout[-3000:]); sys.stderr.write(r.stderr[-3000:])
             raise SystemExit('EXTRACT-FAILED: the driver could not analyse /repo (does it compile?)')
         t1 = time.time()
         import interp
-        summ = interp.analyse(fpath, None, verbose=verbose)
+        summ = interp.analyse(fpath, None, verbose=verbose, merge_bool=merge_bool)
         summ['extract_wall'] = t1 - t0; summ['interp_wall'] = time.time() - t1; summ['profile'] = profile
         tmp = spath + '.tmp%d' % os.getpid()
         with open(tmp, 'wb') as f: pickle.dump(summ, f, protocol=4)
@@ -86,6 +86,16 @@ def main():
             for v in eng2.violations:
                 if (v.rule, v.key) not in set(k1):
                     v.msg = '[release profile only] ' + v.msg; eng.violations.append(v)
+        if getattr(mod, 'THOROUGH_UNMERGED', False):
+            # third pass: helper outcomes NOT merged (every marker-query outcome is its own path); verdicts must coincide
+            summ3, meta3 = get_summary('dev', use_cache=False, verbose=a.verbose, merge_bool=False)
+            eng3 = engine.Engine(summ3)
+            mod.run(eng3, tier)
+            k3 = sorted(set((v.rule, v.key) for v in eng3.violations))
+            extra['unmerged_pass'] = {'agrees': k3 == k1, 'obligations': eng3.obligations, 'abstract_paths_execute': len(summ3['roots']['execute']['exits'])}
+            for v in eng3.violations:
+                if (v.rule, v.key) not in set(k1):
+                    v.msg = '[unmerged helper outcomes only] ' + v.msg; eng.violations.append(v)
         # the interpreter's own self-test corpus (functions with known semantics)
         st = subprocess.run([sys.executable, os.path.join(VERIF, 'selftest', 'test_interp.py')], capture_output=True, text=True)
         last = (st.stdout.strip().splitlines() or ['no output'])[-1] if st.returncode == 0 else (st.stdout + st.stderr)[-400:]
